@@ -72,6 +72,9 @@ def confirm(ctx, module, cid, want_class):
     alias = None
     if line is not None and json.loads(line).get("ev") == "codec" and module != "TraceCodec":
         module, alias = "TraceCodec", "C01"        # history-independence cases of C10 are ordinary round trips
+    if ctx.prop == "C16":                          # C16 is judged through the round-trip / wire / descriptor verdicts of its cases
+        ev = json.loads(line).get("ev")
+        module, alias = ("TraceCodec", "any") if ev == "codec" else ("TraceDecode", "C03")
     if line is None:
         raise Broken("case %d not found for confirmation" % cid)
     rd = os.path.join(vlib.ROOT, "replays", ctx.prop)
@@ -83,7 +86,7 @@ def confirm(ctx, module, cid, want_class):
     for attempt in range(3):
         _, verdicts, _ = judge_file(ctx, module, rp, "confirm%d_%d" % (cid, attempt), budget="30s", workers=1)
         for (i, prop, reason) in verdicts:
-            if alias and i == cid and prop == alias and not reason.startswith("known:"):
+            if alias and i == cid and (prop == alias or (alias == "any" and prop in ("C01", "C02", "C05", "C13"))) and not reason.startswith("known:"):
                 return rp
             if i == cid and prop == ctx.prop and not reason.startswith("known:") and reason_class(reason) == want_class:
                 return rp
@@ -200,6 +203,39 @@ def plan_C09(ctx):
 
 def plan_C13(ctx):
     return codec_family(ctx, 6000, 200000)
+
+
+def plan_C16(ctx):
+    ctx.build()
+    leaves = '{"nil", "z", "es", "f15"}' if ctx.quick else '{"nil", "t", "z", "m1", "es", "a", "f15", "n0"}'
+    cases, st = fam_codec.mc_generic(ctx.work, "MCJsonAny", "  Env <- MCEnv\n  Leaves = %s\n  Depth = 2\n  Emit = TRUE\n" % leaves,
+                                     "RoundTrip Skippable MatcherSound", timeout=3000)
+    ctx.add_mc(st)
+    if not ctx.quick:   # every leaf (incl. the big int, false, "0" as json.Number) at depth 1
+        c2, st2 = fam_codec.mc_generic(ctx.work, "MCJsonAny", '  Env <- MCEnv\n  Leaves = {"nil", "t", "f", "z", "m1", "big", "f0", "f15", "es", "a", "n0"}\n  Depth = 1\n  Emit = TRUE\n',
+                                       "RoundTrip Skippable MatcherSound")
+        ctx.add_mc(st2)
+        cases += c2
+    log("design check MCJsonAny: %d states, %d cases" % (ctx.states, len(cases)))
+    for c in cases:
+        c["cfg"] = fam_codec.CFGS["jsonany"]
+    cod = [c for c in cases if c["ev"] == "codec"]
+    evo = [c for c in cases if c["ev"] == "evolve"]
+    p1 = os.path.join(ctx.work, "codec_cases.ndjson")
+    p2 = os.path.join(ctx.work, "evolve_cases.ndjson")
+    fam_codec.write_cases(cod, p1, 0)
+    fam_codec.write_cases(evo, p2, 5000000)
+    ctx.case_files = [p1, p2]
+    t1 = fam_codec.run_cases(ctx.pvh, p1, ctx.work, "cod")
+    t2 = fam_codec.run_cases(ctx.pvh, p2, ctx.work, "evo")
+    v1, j1 = vlib.judge(ctx.work, "TraceCodec", t1, ctx.env, ctx.open, tag="cj")
+    v2, j2 = vlib.judge(ctx.work, "TraceDecode", t2, ctx.env, ctx.open, tag="ej")
+    verdicts = [(i, "C16", p + ":" + r) for (i, p, r) in v1 if p in ("C01", "C02", "C05", "C13")] + [(i, "C16", "skipped-field:" + r) for (i, p, r) in v2 if p == "C03"]
+    jst = {k: j1.get(k, 0) + j2.get(k, 0) for k in ("events", "generated", "distinct")}
+    rule = ("every JSON-model tree of depth <= 2, width <= 2 over the leaves %s with nil and empty containers and the keys '' and 'a', each at top level, as a "
+            "struct field between two other fields and as an unknown field skipped by a reader lacking it; the descriptor-driven JSON rendering of each is "
+            "compared with the tree. distinct = distinct (tree, position); non-trivial = the encoding is non-empty" % leaves)
+    return finish(ctx, "TraceCodec", verdicts, [t1, t2], jst, rule, CODEC_ASSUME + ["nil and empty containers are interchangeable (compared after normalising)"])
 
 
 def plan_C14(ctx):
@@ -551,7 +587,7 @@ def plan_C12(ctx):
     return codec_family(ctx, 6000, 200000, mc_cfgs_quick=("both", "pa"), rnd_cfg="mix")
 
 
-PLANS = {"C13": plan_C13, "C15": plan_C15, "C08": plan_C08, "C04": plan_C04, "C06": plan_C06, "C11": plan_C11, "C03": plan_C03, "C10": plan_C10, "C18": plan_C18, "C12": plan_C12, "C01": plan_C01, "C02": plan_C02, "C05": plan_C05, "C09": plan_C09, "C14": plan_C14}
+PLANS = {"C16": plan_C16, "C13": plan_C13, "C15": plan_C15, "C08": plan_C08, "C04": plan_C04, "C06": plan_C06, "C11": plan_C11, "C03": plan_C03, "C10": plan_C10, "C18": plan_C18, "C12": plan_C12, "C01": plan_C01, "C02": plan_C02, "C05": plan_C05, "C09": plan_C09, "C14": plan_C14}
 MODULES = {k: "TraceCodec" for k in PLANS}
 MODULES["C18"] = "TracePrim"
 MODULES["C03"] = MODULES["C10"] = "TraceDecode"
